@@ -46,12 +46,15 @@ type gCfg struct {
 	// stunWriteBlocks: sending to the STUN server blocks in the socket (full send queue towards that destination)
 	// for as long as the socket lives: only closing the socket, or a write deadline, releases the sender
 	stunWriteBlocks bool
+	// ipv6: the host also has a global and a link-local IPv6 address and udp6 is enabled (the link-local one gets
+	// a socket and a candidate that is never published)
+	ipv6 bool
 }
 
 func (g gCfg) String() string {
 	return fmt.Sprintf("host=%v srflx=%v mapped=%v relay=%v udpMux=%v muxSrflx=%v tcpMux=%v relayTCP=%v ips=%d filter=%v stunTO=%v urls2=%v",
 		g.host, g.srflxStun, g.srflxMapped, g.relay, g.udpMux, g.udpMuxSrflx, g.tcpMux, g.relayTCP, g.nIPs, g.ifaceFilter, g.stunTimeout, g.twoStunURLs) + map[bool]string{true: " sched", false: ""}[g.sched] + map[bool]string{true: " netrev", false: ""}[g.netRev] + map[bool]string{true: " relayCloseErr", false: ""}[g.relayCloseErr] +
-		fmt.Sprintf(" mappedExt=%d relayExt=%d", g.mappedExt, g.relayExt) + map[bool]string{true: " relayTLS", false: ""}[g.relayTLS] + map[bool]string{true: " stunWriteBlocks", false: ""}[g.stunWriteBlocks]
+		fmt.Sprintf(" mappedExt=%d relayExt=%d", g.mappedExt, g.relayExt) + map[bool]string{true: " relayTLS", false: ""}[g.relayTLS] + map[bool]string{true: " stunWriteBlocks", false: ""}[g.stunWriteBlocks] + map[bool]string{true: " ipv6", false: ""}[g.ipv6]
 }
 
 func drawGCfg(t *tape.Tape) gCfg {
@@ -83,6 +86,7 @@ func drawGCfg(t *tape.Tape) gCfg {
 		g.relayExt = t.Pick([]int{3, 1, 1}, "relayext")
 	}
 	g.stunWriteBlocks = g.srflxStun && !g.udpMuxSrflx && t.Bias(1, 5, "stunwriteblocks")
+	g.ipv6 = t.Bias(1, 4, "ipv6")
 	return g
 }
 
@@ -118,6 +122,9 @@ func newGRig(c *core.Ctx, t *tape.Tape, cfg gCfg, extra ...ice.AgentOption) (*gR
 	for i := 0; i < cfg.nIPs; i++ {
 		ips = append(ips, fmt.Sprintf("10.0.1.%d", 10+i))
 	}
+	if cfg.ipv6 {
+		ips = append(ips, "2001:db8:1::10", "fe80::10")
+	}
 	g.H = g.W.SimpleHost("A", ips...)
 	srv := g.W.SimpleHost("S", "203.0.113.5", "203.0.113.6")
 	if cfg.stunWriteBlocks {
@@ -144,6 +151,9 @@ func newGRig(c *core.Ctx, t *tape.Tape, cfg gCfg, extra ...ice.AgentOption) (*gR
 		types = append(types, ice.CandidateTypeRelay)
 	}
 	nts := []ice.NetworkType{ice.NetworkTypeUDP4}
+	if cfg.ipv6 {
+		nts = append(nts, ice.NetworkTypeUDP6)
+	}
 	if cfg.tcpMux {
 		nts = append(nts, ice.NetworkTypeTCP4)
 	}
@@ -205,7 +215,7 @@ func newGRig(c *core.Ctx, t *tape.Tape, cfg gCfg, extra ...ice.AgentOption) (*gR
 		opts = append(opts, ice.WithAddressRewriteRules(rules...))
 	}
 	if cfg.ifaceFilter {
-		opts = append(opts, ice.WithInterfaceFilter(func(name string) bool { return name == "eth0" || name == "eth1" }))
+		opts = append(opts, ice.WithInterfaceFilter(func(name string) bool { return name == "eth0" || name == "eth1" || name == "eth3" }))
 	}
 	if cfg.udpMux {
 		s, err := g.H.Net().ListenUDP("udp4", &net.UDPAddr{IP: net.ParseIP("10.0.1.10"), Port: 7000})
